@@ -39,3 +39,8 @@ claim('C18', 'other',
       'Abstract interpretation of the packet-fetch path (SX126x, SX127x incl. both variants by class-hierarchy join, LR11xx through the generic layer, LoRa::complete_rx/get_rx_result/rx, LorawanRadio::rx_single/rx_continuous) with all chip-reported bytes unconstrained: every bounds/slice/overflow/unwrap site discharged (payload_length <= buffer.len() proven at the slice); structural rules: single write through the caller buffer, slice [0..len], returned length = slice bound, length/offset provenance, error status before use, adapter and MAC front-end pass on exactly that length. For all status bytes; not the content equality of the copied bytes with the chip FIFO.',
       'Trusted: rustc MIR construction incl. coroutine bodies; await modelled as a call that returns; embedded-hal bus traits return unconstrained data; foreign PhyRxTx impls must honour len <= buffer.len().',
       'static analysis: abstract interpretation over async MIR (obligations) + SAME-VALUE / effect rules', 'DESIGN.md 4/C18', engine='lrs/absint')
+
+claim('C15', 'other',
+      'Exhaustive decision-table extraction: for all 8 x 10 (SF, BW) pairs the LDRO decision of the airtime calculator and of the SX126x, SX127x (both variants joined) and LR11xx create_modulation_params is computed by abstract interpretation of their MIR with the enum parameters fixed per partition (pure loop-free code -> one constant per cell), then compared pairwise and with the 16.38 ms definition (nominal bandwidths; the straddling pair accepts either). The domain is finite and fully enumerated.',
+      'Trusted: rustc MIR construction; value-set abstract interpreter; bandwidth nominal values; tables extracted at 868.1 MHz. Placement of the flag in the chip register is C13.',
+      'static analysis: decision tables over finite enum domains by partitioned abstract interpretation of MIR', 'DESIGN.md 4/C15', engine='lrs/absint')
